@@ -5,6 +5,8 @@ import (
 	"os"
 	"path/filepath"
 	"sync"
+
+	"github.com/hydraide/hydraide/app/verifhook"
 )
 
 // Compactor handles file compaction to remove fragmentation.
@@ -161,6 +163,11 @@ func (c *Compactor) Compact() (*CompactionResult, error) {
 	}
 
 	// Atomic rename: replace old file with new
+	if err := verifhook.FileOp("rename", nil, tempPath, nil); err != nil {
+		os.Remove(tempPath)
+		result.Error = err
+		return result, err
+	}
 	if err := os.Rename(tempPath, c.filePath); err != nil {
 		os.Remove(tempPath)
 		result.Error = err
@@ -248,6 +255,7 @@ func CompactFromIndex(filePath string, maxBlockSize int, swampName string, index
 
 	// Always remove any leftover temp from a previous crashed compaction
 	tempPath := filePath + ".compact"
+	verifhook.FileOp("remove", nil, tempPath, nil)
 	_ = os.Remove(tempPath)
 
 	writer, err := NewFileWriterWithName(tempPath, maxBlockSize, swampName)
@@ -272,6 +280,11 @@ func CompactFromIndex(filePath string, maxBlockSize int, swampName string, index
 		return result, err
 	}
 
+	if err := verifhook.FileOp("rename", nil, tempPath, nil); err != nil {
+		os.Remove(tempPath)
+		result.Error = err
+		return result, err
+	}
 	if err := os.Rename(tempPath, filePath); err != nil {
 		os.Remove(tempPath)
 		result.Error = err
@@ -305,6 +318,7 @@ func GetCompactionTempPath(filePath string) string {
 func CleanupCompactionTemp(filePath string) error {
 	tempPath := GetCompactionTempPath(filePath)
 	if _, err := os.Stat(tempPath); err == nil {
+		verifhook.FileOp("remove", nil, tempPath, nil)
 		return os.Remove(tempPath)
 	}
 	return nil
